@@ -17,7 +17,7 @@ ID = "C20"
 LEVEL = "exploration"
 SHARDS = {"quick": 8, "thorough": 16}
 RULE = ("argv = control <host> [--capabilities] [--auto | --id N --token T --key K] + 1..3 setting=value pairs, run through msmart.cli.main() "
-        "in-process on the virtual-time network against a V2 (or V3) model device in a generated initial state. Valid pairs come "
+        "in-process on the virtual-time network against a V2 (or V3) model device in a generated initial state (its property-protocol settings at their defaults or all switched on). Valid pairs come "
         "from a table written from README lines 120-133: every writable setting; enumerations by member name in lower/upper/mixed "
         "case and by integer value (all members of all enums), raw integers 1..102 for fan_speed; numbers as int and float text "
         "incl. boundaries; booleans as True/False/true/false/TRUE/1/0; display_on equal to / different from the device's display. "
@@ -52,7 +52,7 @@ INVALID = ["foo=1", "targettemperature=20", "indoor_temperature=20", "outdoor_te
            "supported_fan_speeds=1", "min_target_temperature=1", "filter_alert=True", "self_clean_active=True", "refresh=1", "apply=1", "to_dict=1",
            "get_capabilities=1", "FanSpeed=1", "_eco=True", "__class__=1", "operational_mode=warm", "operational_mode=9", "operational_mode=0",
            "swing_mode=1", "swing_mode=diagonal", "aux_mode=3", "rate_select=2", "vertical_swing_angle=pos_9", "target_temperature=hot",
-           "target_humidity=wet", "eco=yes", "eco=on", "turbo=maybe", "beep=off", "fan_speed", "eco", "eco=", "target_temperature=", "id=5",
+           "target_humidity=wet", "operational_mode=2.5", "swing_mode=3.9", "aux_mode=1.2", "rate_select=50.5", "horizontal_swing_angle=25.7", "eco=yes", "eco=on", "turbo=maybe", "beep=off", "fan_speed", "eco", "eco=", "target_temperature=", "id=5",
            "ip=1.2.3.4", "token=00", "type=1", "name=x"]
 
 
@@ -114,6 +114,9 @@ def run_cli(case: dict):
     def on_loop(loop):
         m = M.ModelAC(gens.to_acstate(case["initial"]))
         m.props = {0x0009: b"\x00", 0x000A: b"\x00", 0x0048: b"\x64", 0x0043: b"\x01", 0x0042: b"\x01", 0x0018: b"\x00", 0x00E3: bytes([1, 0]) + bytes(10), 0x0039: b"\x00"}
+        if case.get("props_on"):
+            # the device currently has every property-protocol setting switched on (someone used the remote)
+            m.props.update({0x0009: b"\x32", 0x000A: b"\x4b", 0x0048: b"\x28", 0x0043: b"\x04", 0x0042: b"\x02", 0x0018: b"\x00", 0x00E3: bytes([1, 1]) + bytes(10)})
         recs = [M.cap_record(c, b"\x01") for c in (0x0009, 0x000A, 0x0043, 0x00E3, 0x0039)] + [M.cap_record(0x0048, b"\x02"), M.cap_record(0x0210, b"\x07"),
                                                                                                M.cap_record(0x0210, b"\x01"), M.cap_record(0x0214, b"\x01"), M.cap_record(0x0215, b"\x01")]
         m.cap_pages = [(recs, b"")]
@@ -258,7 +261,7 @@ def pair_strategy():
     return st.one_of(enum_by_name, enum_by_int, fan_raw, temp, hum, boolean, boolean)
 
 
-def _mk_valid(pairs_settings, initial, caps, version, auto=False):
+def _mk_valid(pairs_settings, initial, caps, version, auto=False, props_on=False):
     # one pair per setting name (later duplicates dropped): the documented meaning of repeated settings is not specified
     seen, pairs, settings = set(), [], []
     for p, s in pairs_settings:
@@ -269,7 +272,7 @@ def _mk_valid(pairs_settings, initial, caps, version, auto=False):
         pairs.append(list(p))
         settings.append(s)
     return {"kind": "valid", "pairs": pairs, "settings": settings, "initial": initial, "capabilities": caps, "version": version,
-            "auto": bool(auto) and version == 2}
+            "auto": bool(auto) and version == 2, "props_on": props_on}
 
 
 def run(ctx) -> None:
@@ -280,18 +283,18 @@ def run(ctx) -> None:
             for how in (0, 1, 2):
                 n += 1
                 if ctx.mine(n):
-                    case = _mk_valid([((name, "name", member), f"{name}={style(member, how)}")], DEFAULT_INITIAL, n % 2 == 0, 2)
+                    case = _mk_valid([((name, "name", member), f"{name}={style(member, how)}")], DEFAULT_INITIAL, n % 2 == 0, 2, False, n % 3 == 0)
                     ctx.check(case, lambda c: _run_one(ctx, c))
             n += 1
             if ctx.mine(n):
-                case = _mk_valid([((name, "int", value), f"{name}={value}")], DEFAULT_INITIAL, n % 2 == 0, 2 + (n % 5 == 0))
+                case = _mk_valid([((name, "int", value), f"{name}={value}")], DEFAULT_INITIAL, n % 2 == 0, 2 + (n % 5 == 0), False, n % 3 != 0)
                 ctx.check(case, lambda c: _run_one(ctx, c))
     for b in BOOLS:
         for sp, val in sorted(BOOL_SPELLINGS.items()):
             for disp in (True, False):
                 n += 1
                 if ctx.mine(n):
-                    case = _mk_valid([((b, "bool", val), f"{b}={sp}")], dict(DEFAULT_INITIAL, display_on=disp), n % 2 == 0, 2)
+                    case = _mk_valid([((b, "bool", val), f"{b}={sp}")], dict(DEFAULT_INITIAL, display_on=disp), n % 2 == 0, 2, False, n % 2 == 1)
                     ctx.check(case, lambda c: _run_one(ctx, c))
     for v in range(1, 103):
         n += 1
@@ -313,7 +316,7 @@ def run(ctx) -> None:
     ctx.sweep("every (setting, member, case style), member integer, boolean spelling, raw fan integer, setpoint; invalid catalogue", n, True)
 
     valid = st.builds(_mk_valid, st.lists(pair_strategy(), min_size=1, max_size=3), gens.device_states(), st.booleans(), st.sampled_from([2, 2, 3]),
-                      st.sampled_from([False, False, True]))
+                      st.sampled_from([False, False, True]), st.booleans())
     ctx.hyp("valid argv", valid, lambda c: _run_one(ctx, c), ctx.n(3200, 128000))
     invalid = st.tuples(st.lists(pair_strategy().map(lambda t: t[1]), max_size=2), st.sampled_from(INVALID), st.integers(0, 2)).map(
         lambda t: {"kind": "invalid", "settings": (t[0][:t[2]] + [t[1]] + t[0][t[2]:]), "initial": DEFAULT_INITIAL, "capabilities": t[2] == 1,
